@@ -22,6 +22,9 @@ class RWorld:
     def __init__(self, case):
         self.case = case
         self.env = TapEnvironment(case.get('t0', 0))
+        # requests are observed through schedule() and the harness's own records only: no probe call-back is ever put on
+        # a request (a request nobody has yielded yet must look to the resource exactly as it does in production)
+        self.env.probe_enabled = False
         self.kind = case['kind']
         cap = case.get('capacity', 1)
         env = self.env
@@ -185,6 +188,12 @@ def use(w, pid, i, op):
         args = (op.get('prio', 0), op.get('preempt', True))
     w.register(req, rid)
     w.rec('Q', pid, i, rid, 'request', args, req.triggered)
+    if op.get('lazy') is not None:
+        # the requester books the slot, goes on with something else and turns to the request only later
+        try:
+            yield env.timeout(op['lazy'])
+        except Interrupt as e:
+            w.rec('S', pid, i, rid, 'intr', describe_cause(w, e.cause), 'lazy')
     style = op.get('style', 'manual')
     phase = 'wait'
     leave_exc = None
@@ -325,6 +334,10 @@ def putget(w, pid, i, op):
     if k == 'get':
         w.pending_get.append(rid)
     w.rec('Q', pid, i, rid, k, args, req.triggered)
+    if op.get('forget') and k == 'put':
+        # fire and forget: the producer does not wait for its put to be accepted (and may well end before it is)
+        w.rec('S', pid, i, rid, 'forgotten', req.triggered)
+        return
     style = op.get('style', 'manual')
     leave_exc = None
     attempts = 0
@@ -456,6 +469,8 @@ def gen_resource_case(rng, tier):
                       'patience': rng.choice([None, None, None, 0, 1, 2, 0.5]), 'hold': rng.choice(pool),
                       'style': rng.choice(['manual', 'manual', 'with']), 'extra': [],
                       'on_intr': rng.choice(['leave', 'leave', 'rewait', 'release_rewait']), 'exit_exc': rng.random() < 0.5}
+                if rng.random() < 0.1:
+                    op['lazy'] = rng.choice(pool)
                 if rng.random() < 0.04:
                     op['abandon'] = True         # the user process ends without ever releasing
                 elif rng.random() < 0.12:
@@ -522,6 +537,8 @@ def gen_store_case(rng, tier):
             op = {'op': 'put' if isput else 'get', 'patience': rng.choice([None, None, None, 0, 1, 2, 0.5]),
                   'style': rng.choice(['manual', 'manual', 'manual', 'with']),
                   'on_intr': rng.choice(['leave', 'leave', 'rewait']), 'exit_exc': rng.random() < 0.5}
+            if isput and rng.random() < 0.12:
+                op['forget'] = True
             if kind == 'Container':
                 op['amount'] = rng.choice(amounts)
             elif isput:
